@@ -8,6 +8,7 @@ import L21.Driver.LefRawIO
 import L21.Driver.RawProtoIO
 import L21.Driver.RawGdsIO
 import L21.Driver.PlaceIO
+import L21.Driver.LefIO
 /-
 Line-protocol operations: `<op> <sexpr>*` ↦ result line.
 -/
@@ -144,6 +145,13 @@ def dispatch (op : String) (args : List Sexp) : String :=
   | "gdsraw.import" => opGdsRawImport args
   | "rawproto.export" => opRawProtoExport args
   | "rawproto.import" => opRawProtoImport args
+  | "lef.lex" => opLefLex args
+  | "lef.enum" => opLefEnum args
+  | "lef.dbu" => opLefDbu args
+  | "lef.read" => "unsupported"
+  | "lef.wr" => "unsupported"
+  | "lef.crash" => "unsupported"
+  | "lef.big" => "unsupported"
   | "tf.apply" => opTfApply args
   | "tf.general" => "unsupported"
   | "c20.abs2gds" => "unsupported"
